@@ -92,6 +92,15 @@ class World:
             u = self.mgr.add_expr(dnf(ttl, sub))
             self.hold(u)
         if nvars >= 4:
+            # ballast whose diagram is large in the declared order, so that a
+            # served reordering request really MOVES variables:
+            # (a /\ c) \/ (b /\ d) [\/ ...] under a < b < c < d < ...
+            half = nvars // 2
+            self.hold(self.mgr.add_expr(' \\/ '.join(
+                '(%s /\\ %s)' % (self.names[i], self.names[i + half]) for i in range(half))))
+            # the two variables that sifting is most likely to exchange
+            self.hold(self.mgr.var(self.names[1]))
+            self.hold(self.mgr.var(self.names[half]))
             # a set over the unprimed variables a, c (pairs (a,b), (c,d))
             self.hold(self.mgr.exist({'b', 'd'}, self.held[0]))
         self.raw.collect_garbage()
@@ -187,6 +196,16 @@ def op_menu(w, rng, tmpdir):
                 lambda ww: ww.mgr.ite(sg(i, si)(ww), sg(j, sj)(ww), sg(k, sk)(ww))))
     ops.append((('apply', dict(op='ite', args=[refval(i, si), refval(j, sj), refval(k, sk)])),
                 lambda ww: ww.mgr.apply('ite', sg(i, si)(ww), sg(j, sj)(ww), sg(k, sk)(ww))))
+    # the quantifier forms of apply: the FIRST operand supplies the variables
+    for sym in ['\\E', 'exists', '\\A', 'forall']:
+        ops.append((('apply', dict(op=sym, args=[refval(k, 1), refval(i, si)])),
+                    lambda ww, sym=sym: ww.mgr.apply(sym, ww.held[k], sg(i, si)(ww))))
+    if n >= 4:
+        # ... with the variables taken from a single-variable first operand that sifting moves
+        for sym, hv in (('\\E', nh - 3), ('\\A', nh - 2), ('exists', nh - 2), ('forall', nh - 3)):
+            for tgt in (i, nh - 4):      # a random held function and the ballast
+                ops.append((('apply', dict(op=sym, args=[refval(hv, 1), refval(tgt, 1)])),
+                            lambda ww, sym=sym, hv=hv, tgt=tgt: ww.mgr.apply(sym, ww.held[hv], ww.held[tgt])))
     qv = sorted(rng.sample(names, rng.randint(1, max(1, n - 1))))
     for fa in (False, True):
         ops.append((('quantify', dict(u=refval(i, 1), qvars=qv, forall=fa, route='quantify')),
@@ -344,6 +363,7 @@ def scenario_traces(tid0, kind, seed, nvars, nheld, tmpdir, kmax=None,
         if kmax is not None and len(ks) > kmax:
             ks = sorted(rng.sample(ks, kmax))
         fired = 0
+        moved = 0
         for k in ks:
             w = World(kind, seed, nvars, nheld)
             if w.snap() != setup:
@@ -351,6 +371,7 @@ def scenario_traces(tid0, kind, seed, nvars, nheld, tmpdir, kmax=None,
             r = run_one(w, thunk, k)
             w.close()
             fired += bool(r['fired'])
+            moved += (r['post']['order'] != setup['order'])
             events.append(dict(
                 op=op, a=dict(a), ret=(r['rets'] or [0])[0], exc=r['exc'],
                 pre=1, expect_ok=True, post=r['post'],
@@ -359,6 +380,6 @@ def scenario_traces(tid0, kind, seed, nvars, nheld, tmpdir, kmax=None,
         yield dict(t=tid, meta=dict(driver='dyn', kind=kind, seed=seed,
                                     nvars=nvars, op=op,
                                     what=a.get('what', a.get('op', op)),
-                                    requests=N, fired=fired),
+                                    requests=N, fired=fired, order_changed=moved),
                    events=events)
         tid += 1
